@@ -37,6 +37,9 @@ type c11Case struct {
 	Pauses []int `json:"pauses,omitempty"`
 }
 
+// recordsHistory: the flavours whose histories are checked for linearizability.
+func (c c11Case) recordsHistory() bool { return c.Flavour == "data" || c.Flavour == "failure" }
+
 // ---- sequential specification of the single-item "counter item" operations
 
 type c11In struct {
@@ -49,6 +52,7 @@ type c11Out struct {
 	Err    string
 	Exists bool
 	C      int
+	Count  int // DescribeTable: ItemCount
 }
 
 type c11State struct {
@@ -75,7 +79,18 @@ var c11Model = porcupine.Model{
 	},
 	Init: func() interface{} { return c11State{} },
 	Step: func(state, input, output interface{}) (bool, interface{}) {
-		s, in, out := state.(c11State), input.(c11In), output.(c11Out)
+		return c11KeyStep(state.(c11State), input.(c11In), output.(c11Out))
+	},
+	Equal: func(a, b interface{}) bool { return a.(c11State) == b.(c11State) },
+	DescribeOperation: func(input, output interface{}) string {
+		return fmt.Sprintf("%+v -> %+v", input, output)
+	},
+}
+
+// c11KeyStep is the sequential specification of one counter item (or one
+// table name of the catalogue).
+func c11KeyStep(s c11State, in c11In, out c11Out) (bool, interface{}) {
+	{
 		switch in.Kind {
 		case "PUT":
 			return out.Err == "", c11State{true, in.C}
@@ -116,8 +131,57 @@ var c11Model = porcupine.Model{
 			return out.Err == "", s
 		}
 		return false, s
+	}
+}
+
+// ---- sequential specification of the "failure window" programs: the three
+// counter items plus the emulated-failure switch, in one partition. While the
+// switch is on every data operation fails with the configured error and
+// changes nothing; DescribeTable is not a data operation and keeps reporting
+// the item count, so a write that lands inside the window is visible.
+
+var c11FailKeys = []string{"k1", "k2", "k3"}
+
+type c11FailState struct {
+	F bool
+	K [3]c11State
+}
+
+func c11KeyIndex(k string) int {
+	for i, x := range c11FailKeys {
+		if x == k {
+			return i
+		}
+	}
+	return 0
+}
+
+var c11FailModel = porcupine.Model{
+	Init: func() interface{} { return c11FailState{} },
+	Step: func(state, input, output interface{}) (bool, interface{}) {
+		s, in, out := state.(c11FailState), input.(c11In), output.(c11Out)
+		switch in.Kind {
+		case "TOGGLE":
+			s.F = in.C == 1
+			return out.Err == "", s
+		case "COUNT":
+			n := 0
+			for _, k := range s.K {
+				if k.Exists {
+					n++
+				}
+			}
+			return out.Err == "" && out.Count == n, s
+		}
+		if s.F {
+			return out.Err == model.ErrInternal, s
+		}
+		i := c11KeyIndex(in.Key)
+		ok, next := c11KeyStep(s.K[i], in, out)
+		s.K[i] = next.(c11State)
+		return ok, s
 	},
-	Equal: func(a, b interface{}) bool { return a.(c11State) == b.(c11State) },
+	Equal: func(a, b interface{}) bool { return a.(c11FailState) == b.(c11FailState) },
 	DescribeOperation: func(input, output interface{}) string {
 		return fmt.Sprintf("%+v -> %+v", input, output)
 	},
@@ -149,6 +213,13 @@ func c11Decode(op model.Op) (c11In, bool) {
 		return n
 	}
 	switch {
+	case op.Kind == "SetFailure":
+		if op.Failure == "internal_server" {
+			return c11In{"TOGGLE", "", 1}, true
+		}
+		return c11In{"TOGGLE", "", 0}, true
+	case op.Kind == "DescribeTable" && op.Table == "tbl":
+		return c11In{"COUNT", "", 0}, true
 	case op.Kind == "CreateTable" && op.Schema != nil && op.Schema.Table != "tbl":
 		return c11In{"CREATE", "table:" + op.Schema.Table, 0}, true
 	case op.Kind == "DeleteTable" && op.Table != "tbl":
@@ -175,6 +246,9 @@ func c11Decode(op model.Op) (c11In, bool) {
 
 func c11Output(r model.Result) c11Out {
 	out := c11Out{Err: r.Err}
+	if r.Desc != nil {
+		out.Count = r.Desc.Count
+	}
 	if c, ok := r.Item["c"]; ok {
 		out.Exists = true
 		fmt.Sscan(c.S, &out.C)
@@ -224,7 +298,7 @@ func runC11(c c11Case, info *c11Info) *failure {
 			if r.Err == model.ErrRuntimePanic {
 				return newFail("runtime panic", "setup %s: %s", op.Kind, r.ErrText)
 			}
-			if in, ok := c11Decode(op); ok && c.Flavour == "data" {
+			if in, ok := c11Decode(op); ok && c.recordsHistory() {
 				history = append(history, porcupine.Operation{ClientId: len(c.Threads) + 1, Input: in, Call: call, Output: c11Output(r), Return: ret})
 			}
 		}
@@ -245,7 +319,7 @@ func runC11(c c11Case, info *c11Info) *failure {
 						panics = append(panics, fmt.Sprintf("%s: %s", op.Kind, r.ErrText))
 						mu.Unlock()
 					}
-					if in, ok := c11Decode(op); ok && c.Flavour == "data" {
+					if in, ok := c11Decode(op); ok && c.recordsHistory() {
 						mu.Lock()
 						history = append(history, porcupine.Operation{ClientId: ti, Input: in, Call: call, Output: c11Output(r), Return: ret})
 						mu.Unlock()
@@ -263,8 +337,8 @@ func runC11(c c11Case, info *c11Info) *failure {
 			buf := make([]byte, 1<<20)
 			n := runtime.Stack(buf, true)
 			dump := string(buf[:n])
-			if strings.Contains(dump, "sync.(*Mutex).Lock") && strings.Contains(dump, "truora/minidyn") {
-				return newFail("deadlock", "program did not finish; a goroutine is parked in Mutex.Lock inside minidyn:\n%.3000s", dump)
+			if g := blockedInMinidyn(dump); g != "" {
+				return newFail("deadlock", "program did not finish; a goroutine is parked on a lock inside minidyn:\n%.3000s", g)
 			}
 			info.inconclusive = "program did not finish within the watchdog, no minidyn goroutine parked on a mutex"
 			return nil
@@ -272,11 +346,22 @@ func runC11(c c11Case, info *c11Info) *failure {
 		if len(panics) > 0 {
 			return newFail("runtime panic", "run %d: %v", run, panics)
 		}
-		if c.Flavour == "data" {
+		if c.recordsHistory() {
 			// final reads complete the history
 			keys := map[string]bool{}
 			for _, op := range history {
-				keys[op.Input.(c11In).Key] = true
+				if k := op.Input.(c11In).Key; k != "" {
+					keys[k] = true
+				}
+			}
+			if c.Flavour == "failure" {
+				for _, fin := range []model.Op{{Kind: "DescribeTable", Table: "tbl"}, {Kind: "SetFailure", Failure: "none"}} {
+					in, _ := c11Decode(fin)
+					call := atomic.AddInt64(&clock, 1)
+					r := d.Apply(fin)
+					ret := atomic.AddInt64(&clock, 1)
+					history = append(history, porcupine.Operation{ClientId: len(c.Threads), Input: in, Call: call, Output: c11Output(r), Return: ret})
+				}
 			}
 			for k := range keys {
 				if strings.HasPrefix(k, "table:") {
@@ -298,7 +383,11 @@ func runC11(c c11Case, info *c11Info) *failure {
 					}
 				}
 			}
-			res := porcupine.CheckOperationsTimeout(c11Model, history, 20*time.Second)
+			spec := c11Model
+			if c.Flavour == "failure" {
+				spec = c11FailModel
+			}
+			res := porcupine.CheckOperationsTimeout(spec, history, 20*time.Second)
 			if res == porcupine.Illegal {
 				var sb strings.Builder
 				for _, op := range history {
@@ -324,6 +413,26 @@ func runC11(c c11Case, info *c11Info) *failure {
 	return nil
 }
 
+// blockedInMinidyn returns the stack of a goroutine that is parked on a
+// synchronisation primitive below a minidyn frame ("" if there is none).
+func blockedInMinidyn(dump string) string {
+	for _, g := range strings.Split(dump, "\n\n") {
+		if !strings.Contains(g, "truora/minidyn/") {
+			continue
+		}
+		head := g
+		if i := strings.Index(g, "\n"); i >= 0 {
+			head = g[:i]
+		}
+		for _, state := range []string{"[semacquire", "[sync.Mutex.Lock", "[sync.RWMutex.Lock", "[sync.RWMutex.RLock", "[sync.Cond.Wait", "[sync.WaitGroup.Wait", "[chan receive", "[chan send", "[select"} {
+			if strings.Contains(head, state) {
+				return g
+			}
+		}
+	}
+	return ""
+}
+
 func init() {
 	replayers["c11"] = func(raw json.RawMessage) *failure {
 		var c c11Case
@@ -337,7 +446,10 @@ func init() {
 	}
 }
 
-const ruleC11 = "rapid generates concurrent programs (sequential setup + 2-8 goroutines x 2-10 operations released from a barrier), each executed repeatedly on a fresh SDK v1 or v2 client in a binary built with the Go race detector (GORACE=halt_on_error), two thirds of them with a generated pause plan (the n-th passage through a verif yield point inside the table operations sleeps 1.5 ms while the client lock is held, which puts the mutex into hand-off mode so that a lock dropped and re-taken inside an operation is interleaved): 'data' programs over a tiny key space of counter items (PutItem, conditional PutItem attribute_not_exists, UpdateItem ADD 1, GetItem, DeleteItem ALL_OLD, conditional DeleteItem) and 'catalogue' programs (CreateTable / DeleteTable / DescribeTable on two names, N racing CreateTable on one fresh name) whose invoke/return-stamped histories, completed by final reads, are checked for linearizability with porcupine against the sequential counter-item / table-catalogue specification (this subsumes 'N concurrent ADD-1 yield N' and 'exactly one of N racing conditional puts succeeds', both also generated as dedicated programs); 'mixed' programs over every client method (CreateTable / DeleteTable / UpdateTable / DescribeTable, batch calls, TransactWriteItems, Query, Scan, ClearTable, failure toggling, data operations). Oracles: race detector report (the program being executed is recorded before it starts), runtime panic or fatal error, deadlock watchdog (goroutine parked in Mutex.Lock inside minidyn), linearizability, SortedKeys/Data consistency afterwards. Non-trivial = program in which >= 2 goroutines touch the same key or the table catalogue; distinct = hash of the program."
+const ruleC11 = "rapid generates concurrent programs (sequential setup + 2-8 goroutines x 2-10 operations released from a barrier), each executed repeatedly on a fresh SDK v1 or v2 client in a binary built with the Go race detector (GORACE=halt_on_error), two thirds of them with a generated pause plan (the n-th passage through a verif yield point inside the table operations sleeps 1.5 ms while the client lock is held, which puts the mutex into hand-off mode so that a lock dropped and re-taken inside an operation is interleaved): 'data' programs over a tiny key space of counter items (PutItem, conditional PutItem attribute_not_exists, UpdateItem ADD 1, GetItem, DeleteItem ALL_OLD, conditional DeleteItem) and 'catalogue' programs (CreateTable / DeleteTable / DescribeTable on two names, N racing CreateTable on one fresh name) whose invoke/return-stamped histories, completed by final reads, are checked for linearizability with porcupine against the sequential counter-item / table-catalogue specification (this subsumes 'N concurrent ADD-1 yield N' and 'exactly one of N racing conditional puts succeeds', both also generated as dedicated programs); 'failure' programs (writers and readers on the counter items beside goroutines that switch the emulated failure on and off and read DescribeTable's item count inside the window), checked against the specification extended by the switch: once EmulateFailure has returned, no write may land until it is switched off; 'mixed' programs over every client method (CreateTable / DeleteTable / UpdateTable / DescribeTable, batch calls, TransactWriteItems, Query, Scan, ClearTable, failure toggling, data operations). Oracles: race detector report (the program being executed is recorded before it starts), runtime panic or fatal error, deadlock watchdog (a goroutine parked on a lock, condition or channel below a minidyn frame after 30 s), linearizability, SortedKeys/Data consistency afterwards. Non-trivial = program in which >= 2 goroutines touch the same key or the table catalogue; distinct = hash of the program."
+
+// c11Recorded: a failing program has been written to the replay file of this process.
+var c11Recorded bool
 
 // TestC11 decides property C11.
 func TestC11(t *testing.T) {
@@ -349,7 +461,7 @@ func TestC11(t *testing.T) {
 	}
 	rapid.Check(t, func(rt *rapid.T) {
 		c := c11Case{Client: rapid.SampledFrom([]string{"v1", "v2"}).Draw(rt, "client"), Runs: runs}
-		c.Flavour = rapid.SampledFrom([]string{"data", "data", "mixed", "mixed", "counter", "racing-puts", "racing-deletes", "catalogue", "racing-creates"}).Draw(rt, "flavour")
+		c.Flavour = rapid.SampledFrom([]string{"data", "data", "mixed", "mixed", "counter", "racing-puts", "racing-deletes", "catalogue", "racing-creates", "failure", "failure"}).Draw(rt, "flavour")
 		mainSchema := sTable("tbl", false)
 		mainSchema.Attrs["g1"] = "S"
 		mainSchema.Indexes = []model.IndexSchema{{Name: "gidx", Hash: "g1", Global: true, NoThroughput: true}}
@@ -400,6 +512,30 @@ func TestC11(t *testing.T) {
 			c.Setup = append(c.Setup, c11DataOp(c11In{Kind: "PUT", Key: "k1", C: 7}))
 			for i := 0; i < nThreads; i++ {
 				c.Threads = append(c.Threads, []model.Op{c11DataOp(c11In{Kind: "CDEL", Key: "k1"}), c11DataOp(c11In{Kind: "CPUT", Key: "k1", C: i + 1})})
+			}
+			shared = true
+		case "failure":
+			// writers and readers beside a goroutine that opens and closes
+			// failure windows and counts the items inside them
+			for i := 0; i < nThreads; i++ {
+				n := rapid.IntRange(2, 6).Draw(rt, "opsPerThread")
+				var ops []model.Op
+				observer := i == 0 || rapid.IntRange(0, 3).Draw(rt, "observer") == 0
+				for j := 0; j < n; j++ {
+					if observer {
+						ops = append(ops, rapid.SampledFrom([]model.Op{
+							{Kind: "SetFailure", Failure: "internal_server"},
+							{Kind: "DescribeTable", Table: "tbl"},
+							{Kind: "DescribeTable", Table: "tbl"},
+							{Kind: "SetFailure", Failure: "none"},
+						}).Draw(rt, "observerOp"))
+						continue
+					}
+					in := c11In{Kind: rapid.SampledFrom([]string{"PUT", "ADD", "ADD", "DEL", "DEL", "GET"}).Draw(rt, "dataOp"),
+						Key: rapid.SampledFrom(keys).Draw(rt, "key"), C: rapid.IntRange(0, 9).Draw(rt, "c")}
+					ops = append(ops, c11DataOp(in))
+				}
+				c.Threads = append(c.Threads, ops)
 			}
 			shared = true
 		case "data":
@@ -453,8 +589,9 @@ func TestC11(t *testing.T) {
 						{Kind: "SetFailure", Failure: "none"},
 						{Kind: "DescribeTable", Table: "other"},
 					}).Draw(rt, "mixedOp")
-					if c.Client == "v2" && rapid.IntRange(0, 9).Draw(rt, "batchGet") == 0 {
-						op = model.Op{Kind: "BatchGet", Batch: []model.TableBatch{{Table: "tbl", Keys: []model.Item{c11Key(k)}}}}
+					if c.Client == "v2" && rapid.IntRange(0, 5).Draw(rt, "batchGet") == 0 {
+						op = model.Op{Kind: "BatchGet", Consistent: rapid.Bool().Draw(rt, "consistentRead"),
+							Batch: []model.TableBatch{{Table: "tbl", Keys: []model.Item{c11Key("k1"), c11Key("k2"), c11Key("k3"), c11Key("k4"), c11Key("k5")}}}}
 					}
 					ops = append(ops, op)
 				}
@@ -467,7 +604,11 @@ func TestC11(t *testing.T) {
 		}
 		// always record the program before running it: a race report or a
 		// fatal error ends the process
-		writeReplay("C11", "c11", "race detector report or process crash", "see the check log for the report", c)
+		// (once a schedule-dependent failure has been recorded, keep it: the
+		// re-executions rapid performs while shrinking usually pass)
+		if !c11Recorded {
+			writeReplay("C11", "c11", "race detector report or process crash", "see the check log for the report", c)
+		}
 		info := &c11Info{}
 		f := runC11(c, info)
 		st.Case(shared, c)
@@ -481,9 +622,12 @@ func TestC11(t *testing.T) {
 		if f != nil {
 			stats.For("C11").Violation()
 			writeReplay("C11", "c11", f.Class, f.Detail, c)
+			c11Recorded = true
 			rt.Logf("C11 detail: %s", f.Detail)
 			rt.Fatalf("C11: %s", f.Class)
 		}
-		os.Remove(replayOutPath("C11"))
+		if !c11Recorded {
+			os.Remove(replayOutPath("C11"))
+		}
 	})
 }
